@@ -155,7 +155,7 @@ def run(ctx):
     rng = ctx.rng
     phase = {"proof": round(time.time() - t_start, 1)}
     t0 = time.time()
-    progs, items = sc.fragment_items(rng, ctx.n(28, 330), 3, 3, 6, extra=[(pg.shape_andor, ctx.n(60, 650)), (pg.shape_multi_arg, ctx.n(14, 120))])
+    progs, items = sc.fragment_items(rng, ctx.n(28, 330), 3, 3, 6, extra=[(pg.shape_andor, ctx.n(60, 650)), (pg.shape_multi_arg, ctx.n(14, 120))], neg_ring=True)
     mism, perr = sc.run_items(items, cpu=ctx.n(4, 6), timeout=ctx.n(600, 3000))
     phase["solvers"] = round(time.time() - t0, 1)
     if mism:
